@@ -285,6 +285,19 @@ def run_enum_xla(p):
             checked += 1
             if got.get('value') != exp and len(bad[k]) < 3:
                 bad[k].append({'points': ps, 'got': got, 'expected': exp})
+    # point counts that are not multiples of the shard count / shard size (7 points in 2 shards, 25 in 10, ...): one point
+    # that dominates an antichain, placed first, last and in the middle
+    for n in list(range(4, 14)) + [21, 25]:
+        chain = [[float(i), float(n - i)] for i in range(1, n)]
+        top = [float(n), float(n)]
+        for ps in (([top] + chain), (chain + [top]), (chain[:n // 2] + [top] + chain[n // 2:])):
+            P = np.array(ps, dtype=float)
+            exp = spec_optimal(ps)
+            for k in shards:
+                got = call(lambda: tolist(xla_pareto.is_frontier(P, num_shards=k)))
+                checked += 1
+                if got.get('value') != exp and len(bad[k]) < 3:
+                    bad[k].append({'points': ps, 'got': got, 'expected': exp})
     return {'checked': checked, 'failures_by_num_shards': {str(k): v for k, v in bad.items()},
             'reproduced': any(v for k, v in bad.items())}
 
